@@ -76,6 +76,14 @@ def run(ctx):
     inputs = [bytes([a]) for a in range(256)] + [bytes([a, b]) for a in range(256) for b in range(256)]
     for _ in range(100 if ctx.quick else 2000):
         inputs.append(bytes(rnd.randrange(256) for _ in range(rnd.randrange(3, 400))))
+    # strings dense in the entries whose spelling has more than one code point, and long runs of one byte
+    multi = [b for b in range(256) if len(tab[b]) > 1] or [0x8e]
+    for _ in range(60 if ctx.quick else 600):
+        n = rnd.randrange(20, 300)
+        inputs.append(bytes(rnd.choice(multi) if rnd.randrange(3) else rnd.randrange(256) for _ in range(n)))
+    for b in multi + [10, 13, 0, 255]:
+        inputs.append(bytes([b]) * 70)
+        inputs.append(bytes([b, 65]) * 40 + b'\r\n')
     recs = core.parmap(convert, inputs)
     can1 = {'inp': [65, 128], 'uni': [65, 9608], 'utf8ok': True, 'back': [65, 129]}
     good = convert(b'A\x80')
